@@ -478,6 +478,7 @@ class DynEngine(Engine):
           fails.append(('config-str-does-not-parse', '%s: %s; text %r' % (type(e).__name__, str(e)[:200], text)))
       # (3) a text whose every name is provided by its own imports and exists in the universe is accepted
       from harness import findings  # pylint: disable=g-import-not-at-top
+      registered_so_far = set(p.partition('@')[0] for p in pre)
       for ci, stmts in enumerate(case):
         table, dyn, valid = {}, False, True
         taken = [p.partition('@')[2] for p in pre if '@' in p]
@@ -497,6 +498,9 @@ class DynEngine(Engine):
               if st[1] == 'gin.config' and not dyn:
                 seen_import = True
                 continue             # a real module; binds nothing in a file without the feature
+              if st[1] not in UNIVERSE and (sks[ci] is True or (isinstance(sks[ci], list) and len(sks[ci][1]) > 0)):
+                seen_import = True
+                continue             # the import of a missing module is dropped under any truthy skip_unknown
               if st[1] not in UNIVERSE or findings._bound(st) == 'gin':
                 valid = False
               table[findings._bound(st)] = st
@@ -510,12 +514,21 @@ class DynEngine(Engine):
               r = findings._resolve(table, n)
               if not r:
                 if sks[ci] is True or (isinstance(sks[ci], list) and n in sks[ci][1]):
+                  if any(q == n or q.endswith('.' + n) for q in registered_so_far):
+                    # registered (hence not skipped) but not provided by this text's imports: a legitimate NameError
+                    valid, first_bad = False, 'NameError'
+                    break
                   continue           # covered by skip_unknown: the statement is dropped / the reference becomes a placeholder
                 valid, first_bad = False, ('NameError' if not sks[ci] or sks[ci] == ['list', []] else None)
                 break
+              if r[0] not in w.objs and (sks[ci] is True or (isinstance(sks[ci], list) and n in sks[ci][1])):
+                continue             # a missing attribute is an unknown name too: covered by skip_unknown
               if r[0] not in w.objs:
                 valid, first_bad = False, ('AttributeError' if r[0].rpartition('.')[0] in w.objs or r[0].rpartition('.')[0] in UNIVERSE else None)
                 break
+              registered_so_far.add(r[0])
+              if r[0].rpartition('.')[0] in w.objs and not isinstance(w.objs[r[0].rpartition('.')[0]], type(sys)):
+                registered_so_far.add(r[0].rpartition('.')[0])      # a method registers its class too
               if any(r[0] == t or r[0].startswith(t + '.') for t in taken):
                 valid = False    # a selector already taken by another object is a legitimate ValueError
                 break
@@ -561,6 +574,8 @@ class DynEngine(Engine):
               if isinstance(v, int) and got.get(pname) != v:
                 fails.append(('configured-method-not-injected', '%s/%s.%s = %r, the method received %r' % (sc, q, pname, v, got)))
           except Exception as e:  # pylint: disable=broad-except
+            if any(sks) and 'No configurable matching reference' in str(e):
+              continue      # a placeholder kept under skip_unknown raises on use: by design (C15)
             fails.append(('configured-method-call-raised', '%s: %s' % (type(e).__name__, str(e)[:200])))
       multi = any(len(v) >= 2 for v in spell.values())
     finally:
